@@ -193,8 +193,17 @@ pub fn build(dc: &DefectCase, defects: &[Defect]) -> Case {
         plan.spec.sep = (dc.variant >> 6) + if dc.variant & 0x08 != 0 { 2 } else { 0 };
     }
     plan.cfg.fold = true;
-    plan.cfg.reqs = Reqs { always: vec!["X-Must".into()], if_in_request: vec![], prefixes: vec!["X-Pre-".into()], route: dc.variant % 5 };
+    plan.cfg.reqs = Reqs { always: vec!["X-Must".into()], if_in_request: vec!["X-Maybe".into()], prefixes: vec!["X-Pre-".into()], route: dc.variant % 5 };
     plan.logical.headers.push(("x-must".into(), vec![B::from("1")]));
+    // (required to be signed IF carried; carried with an empty value in some variants)
+    plan.logical.headers.push(("x-maybe".into(), vec![if dc.variant & 0x08 != 0 { B::default() } else { B::from("m") }]));
+    if dc.variant % 7 == 3 {
+        // a timestamp with a zone offset: the request's UTC date and time differ from what the text shows
+        let st = crate::model::time::TsStyle { extended: true, offset_min: Some(if dc.variant & 1 == 0 { 330 } else { -480 }), frac_digits: 0, comma: false, extra: 0 };
+        let (i, n) = (plan.instant, plan.cfg.now);
+        plan = plan.with_time(i, st);
+        plan.cfg.now = n;
+    }
     plan.logical.headers.push(("x-pre-one".into(), vec![B::from("p")]));
     plan.logical.method = if dc.variant % 2 == 0 { "POST".into() } else { "GET".into() };
     plan.form = Some(vec![(B::from("f"), B::from("1"))]);
@@ -224,15 +233,23 @@ pub fn build(dc: &DefectCase, defects: &[Defect]) -> Case {
     }
     // --- signing inputs
     let mut spec = plan.spec.clone();
-    spec.signed_headers = vec!["host".into(), "x-must".into(), "x-pre-one".into()];
+    spec.signed_headers = vec!["host".into(), "x-maybe".into(), "x-must".into(), "x-pre-one".into()];
     if carrier == Carrier::Header {
         spec.signed_headers.push("x-amz-date".into());
     }
     if has(HostUnsigned) {
+        if dc.variant & 0x0C == 0x04 {
+            // an HTTP/2 or HTTP/3 request as a server hands it over: no Host header field, the authority in the target
+            base.headers.retain(|(n, _)| !n.eq_ignore_ascii_case("host"));
+            base.version = if dc.variant & 1 == 0 { 2 } else { 3 };
+            base.uri = format!("https://example.amazonaws.com{}", base.uri);
+        }
         spec.signed_headers.retain(|h| h != "host");
     }
     if has(RequirementUnmet) {
-        spec.signed_headers.retain(|h| h != "x-must");
+        // the always-required header, or the one required if carried (carried with or without a value)
+        let which = if dc.variant & 0x40 != 0 { "x-maybe" } else { "x-must" };
+        spec.signed_headers.retain(|h| h != which);
     }
     if has(PrefixRequirementUnmet) {
         spec.signed_headers.retain(|h| h != "x-pre-one");
